@@ -195,6 +195,11 @@ def cross_graph_cases():
     def fgate(fb):
         return IR.route("G", ["x"], ["A", "B"], [[IR.NONE]], cache=True, fid="shared_fb", tname="FB", fallback=fb)
     out.append((IR.prog("top", [fgate("A"), na, nb]), IR.prog("top", [fgate("B"), na, nb]), [["x", "in.x"]], "shared-func/gate-different-fallback"))
+    # ONE function behind a function node and behind an interrupt (same output name): its None is an ordinary value of
+    # the function node, but makes the interrupt pause -- a cached {p: None} must not resolve the interrupt
+    a = IR.func("A", ["x"], ["p"], cache=True, fid="shared_kind", tname="ID", fn="id")
+    b = IR.interrupt("A", ["x"], ["p"], cache=True, fid="shared_kind", tname="ID", fn="id", pause_at=[1, 2, 3])
+    out.append((IR.prog("top", [a]), IR.prog("top", [b]), [["x", "~none"]], "shared-func/function-node-and-interrupt"))
     # two definitions with the SAME source text that capture different values (a closure cell / a default evaluated
     # at definition time): functions returned by one file-defined factory
     for kind in ("cell", "default"):
@@ -315,7 +320,10 @@ def run_engine(ctx, thorough, rng):
     cases = shared_function_programs() + engine_programs(rng, 260 if thorough else 70)
     jobs = []
     for prog, alt, prov, tag in cross_graph_cases():
-        for seq in (["sync", "sync@2"], ["async@2", "sync"], ["sync", "async@2", "sync"]):
+        seqs = (["sync", "sync@2"], ["async@2", "sync"], ["sync", "async@2", "sync"])
+        if "interrupt" in tag:           # interrupts need the async runner
+            seqs = (["sync", "async@2"], ["async", "async@2", "async"], ["async@2", "sync", "async@2"])
+        for seq in seqs:
             j = gen.job(len(jobs) + 1, prog, prov)
             j["alt"] = alt
             j["seq"] = seq
